@@ -65,6 +65,7 @@ class Check:
         self.counters: Counter = Counter()
         self.samples: list = []
         self.signatures: set = set()
+        self.idents: set = set()
         self.reach: Counter = Counter()
         self.monitors: dict = {}
         self.extra: dict = {}
@@ -98,10 +99,14 @@ class Check:
             for k, v in mon.items():
                 self.monitors.setdefault(k, v)
 
-    def case_ok(self, signature=None, n: int = 1) -> None:
+    def case_ok(self, signature=None, n: int = 1, ident=None) -> None:
+        """One judged case.  ``signature`` = equivalence class of the case (kind / shape), ``ident`` = what makes this
+        very case distinct from every other one (e.g. run + declaration id); both are counted for the evidence."""
         self.evaluations += n
         if signature is not None:
             self.signatures.add(signature)
+        if ident is not None:
+            self.idents.add(hash(ident))
 
     def sample(self, s, limit: int = 4) -> None:
         if len(self.samples) < limit:
@@ -183,7 +188,7 @@ class Check:
             path = self._write_replay(v, case, rec)
             replay_paths.append(path)
             lines.append(f"VIOLATION property={self.pid} replay={path}")
-        distinct = len(self.signatures)
+        distinct = len(self.idents) if self.idents else len(self.signatures)
         status = "held"
         if self.violations:
             status = "violated"
@@ -200,6 +205,7 @@ class Check:
             "rule": rule,
             "samples": self.samples or ["<no case reached the oracle>"],
             "exhaustive": False,
+            "distinct_classes": len(self.signatures),
             "runs": self.runs,
             "discarded_preconditions": dict(self.discarded),
             "monitor_events": dict(self.counters),
